@@ -116,6 +116,15 @@ fn float_case(cx: &mut Ctx, ax: &[f64], queries: &[f64], f32safe: bool, to_coq: 
     }
 }
 
+fn oracle_i64(ax: &[i64], q: i64) -> usize {
+    let n = ax.len();
+    if q <= ax[0] { return 0; }
+    if q >= ax[n - 1] { return n - 2; }
+    let mut i = 0;
+    while i + 2 < n && ax[i + 1] <= q { i += 1; }
+    i
+}
+
 fn int_case(cx: &mut Ctx, ax: &[i64], queries: &[i64], small: bool) {
     let desc = obj(vec![("axis", J::A(ax.iter().map(|&x| J::I(x)).collect())), ("queries", J::A(queries.iter().map(|&x| J::I(x)).collect())), ("class", s("integer"))]);
     let a = Array1::from(ax.to_vec());
@@ -124,7 +133,8 @@ fn int_case(cx: &mut Ctx, ax: &[i64], queries: &[i64], small: bool) {
     for &q in queries {
         let (r, _) = lookup(&a, q);
         cx.rep.evaluations += 1;
-        let want = oracle_f64(&axf, q as f64);
+        let want = oracle_i64(ax, q);
+        let _ = &axf;
         if r != Res::Idx(want) {
             cx.rep.fail(&format!("i64: get_lower_index({}) = {:?}, bracketing interval is {}", q, r, want), desc.clone());
         }
@@ -323,6 +333,46 @@ pub fn run(cfg: &Cfg) {
         cx.rep.count("integer:i32-large-span");
         cx.rep.eval(Some(&format!("i32span{}{}", n, step)));
         int_case(&mut cx, &ax, &queries, true);
+    }
+    // 4c. i64 axes far above 2^53 with small steps (not representable in f64), queries inside the range
+    for _ in 0..(if thorough { 200 } else { 30 }) {
+        let n = rng.range(2, 30) as usize;
+        let base: i64 = (1i64 << 62) - rng.range(0, 1i64 << 20);
+        let sign = if rng.coin() { 1i64 } else { -1i64 };
+        let mut ax = vec![];
+        let mut c = 0i64;
+        for _ in 0..n { ax.push(c); c += rng.range(1, 4); }
+        let ax: Vec<i64> = if sign > 0 { ax.iter().map(|d| base - c + d).collect() } else { ax.iter().map(|d| -base + d).collect() };
+        let mut queries = vec![ax[0], ax[n - 1], ax[0] - 1, ax[n - 1] + 1];
+        for _ in 0..10 {
+            let k = rng.below(n as u64) as usize;
+            queries.extend([ax[k], ax[k] + 1, ax[k] - 1]);
+        }
+        cx.rep.count("integer:i64-above-2^53");
+        cx.rep.eval(Some(&format!("{:?}", ax)));
+        int_case(&mut cx, &ax, &queries, false);
+    }
+    // 4d. small integer axes, queries at the extremes of the integer type (both clamps; q - x0 overflows)
+    for _ in 0..(if thorough { 200 } else { 30 }) {
+        let n = rng.range(2, 12) as usize;
+        let mut ax = vec![];
+        let mut c = rng.range(-50, 50);
+        for _ in 0..n { ax.push(c); c += rng.range(1, 9); }
+        let q64 = vec![i64::MAX, i64::MIN, i64::MAX - 1, i64::MIN + 1, i32::MAX as i64, i32::MIN as i64];
+        cx.rep.count("integer:extreme-queries");
+        cx.rep.eval(Some(&format!("ext{:?}", ax)));
+        int_case(&mut cx, &ax, &q64, false);
+        // the same axis at i32 with i32 extremes
+        let a32 = Array1::from(ax.iter().map(|&x| x as i32).collect::<Vec<_>>());
+        for &q in &[i32::MAX, i32::MIN, i32::MAX - 1, i32::MIN + 1] {
+            let (r, _) = lookup(&a32, q);
+            cx.rep.evaluations += 1;
+            let want = oracle_i64(&ax, q as i64);
+            if r != Res::Idx(want) {
+                cx.rep.fail(&format!("i32: get_lower_index({}) = {:?}, expected {} (clamped)", q, r, want),
+                            obj(vec![("axis", J::A(ax.iter().map(|&x| J::I(x)).collect())), ("query", J::I(q as i64))]));
+            }
+        }
     }
     let covered = cx.pairs.len() as i64;
     drop(cx);
